@@ -187,7 +187,10 @@ public:
             return r;
         }
         Handle subscribe_lk(Handle h, const subscriber<T> *sub) {
-            auto r = subscribe_lk(sub, _regs[h]._pos);
+            //if the source subscriber is suspended, its position has been already advanced
+            //to the (not yet published) value it is waiting for
+            const subreg_t &src = _regs[h];
+            auto r = subscribe_lk(sub, src._awt?src._pos-1:src._pos);
             return r;
         }
 
